@@ -2,6 +2,7 @@ package engine
 
 import (
 	"github.com/sanonone/kektordb/pkg/core/distance"
+	"github.com/sanonone/kektordb/pkg/core/types"
 	fsm "github.com/sanonone/kektordb/pkg/zzverifmodels"
 	rt "github.com/sanonone/kektordb/pkg/zzverifrt"
 )
@@ -113,4 +114,57 @@ func zzTornOp(e *Engine, keys [2]string, kvOnly bool) {
 	case 3:
 		e.KVDelete(keys[1])
 	}
+}
+
+// ZZVerifC02ImportCommit: VImport journals nothing; VImportCommit is its only durability point. After every
+// acknowledged commit - the first one, a second one with nothing journaled in between, one following an explicit
+// snapshot - a process death loses none of the imported items, and the recovered directory is a fixed point.
+func ZZVerifC02ImportCommit() {
+	e := zzOpen()
+	rt.Assert(e.VCreate("i0", distance.Euclidean, 2, 4, distance.Float32, "", nil, nil, nil) == nil, "prelude: VCreate succeeds")
+	if rt.IntRange("presave", 0, 1) == 1 {
+		rt.Assert(e.SaveSnapshot() == nil, "prelude: SaveSnapshot succeeds")
+		rt.Reach("presaved")
+	}
+	ids := []string{"p", "q", "r"}
+	batches := rt.IntRange("batches", 1, 2)
+	n := 0
+	for b := 0; b < batches; b++ {
+		var items []types.BatchObject
+		sz := rt.IntRange("size", 1, 2)
+		for k := 0; k < sz && n < len(ids); k++ {
+			var md map[string]any
+			if k == 1 {
+				md = map[string]any{"k": "v1"}
+			}
+			items = append(items, types.BatchObject{Id: ids[n], Vector: []float32{float32(n), 1}, Metadata: md})
+			n++
+		}
+		rt.Assert(e.VImport("i0", items) == nil, "VImport succeeds")
+		rt.Assert(e.VImportCommit("i0") == nil, "VImportCommit succeeds")
+		e.wg.Wait()
+		if b == 1 {
+			rt.Reach("second-batch")
+		}
+	}
+	// process death right after the acknowledged commit
+	fsm.Crashed = true
+	e.AOF.Flush()
+	fsm.Reboot()
+	e2 := zzOpen()
+	for i := 0; i < n; i++ {
+		d, err := e2.VGet("i0", ids[i])
+		rt.Assert(err == nil, "import commit: every item of a committed import survives a crash")
+		if err == nil {
+			rt.Assert(len(d.Vector) == 2 && d.Vector[0] == float32(i) && d.Vector[1] == 1, "import commit: the recovered vector is the imported one")
+		}
+	}
+	rt.Assert(e2.AOF.Flush() == nil, "flush after recovery succeeds")
+	e2.AOF.Close()
+	e3 := zzOpen()
+	for i := 0; i < n; i++ {
+		_, err := e3.VGet("i0", ids[i])
+		rt.Assert(err == nil, "import commit: second open after recovery loses nothing further")
+	}
+	rt.Reach("end")
 }
